@@ -321,7 +321,14 @@ impl Plugin for FileTransferPlugin {
                                 recvd_packages: 0,
                                 recvd_payload: 0,
                                 file_data: Vec::with_capacity(if keep_data {
-                                    (nr_packages * buffer_size) as usize
+                                    // only a hint; never trust the announced sizes for a huge allocation
+                                    std::cmp::max(
+                                        1,
+                                        std::cmp::min(
+                                            nr_packages.saturating_mul(buffer_size),
+                                            16 * 1024 * 1024,
+                                        ) as usize,
+                                    )
                                 } else {
                                     0
                                 }),
